@@ -371,3 +371,116 @@ func FiltersOwnChildren(n *CandidateNode) {
 	}
 	n.Content = kept
 }
+
+// --- round 6: jump-swallow, value before error, alias cycles, preferences in a recursion,
+// --- the anchor table, the exit-status flag, computed Chmod modes -----------------------
+
+// SwallowsByBreak: the error ends the loop and is then forgotten.
+func SwallowsByBreak(w io.Writer, rows []string) error {
+	for _, r := range rows {
+		if _, err := w.Write([]byte(r)); err != nil {
+			break
+		}
+	}
+	return nil
+}
+
+func nextNode(r *bufio.Reader) (*CandidateNode, error) {
+	s, err := r.ReadString('\n')
+	if err != nil {
+		return nil, err
+	}
+	return &CandidateNode{Value: s}, nil
+}
+
+// ValueBeforeError: the value is nil-tested before the error is looked at.
+func ValueBeforeError(r *bufio.Reader) (int, error) {
+	n := 0
+	for {
+		t, err := nextNode(r)
+		if t == nil {
+			break
+		}
+		if err != nil {
+			return n, err
+		}
+		n++
+	}
+	return n, nil
+}
+
+// FollowsAliasDeep descends into children and re-enters on the alias target without an ancestor test.
+func FollowsAliasDeep(n *CandidateNode) int {
+	total := 1
+	if n.Alias != nil {
+		total += FollowsAliasDeep(n.Alias)
+	}
+	for _, ch := range n.Content {
+		total += FollowsAliasDeep(ch)
+	}
+	return total
+}
+
+// FollowsAliasGuarded is clean: the alias is followed only when its target is not the map it sits in.
+func FollowsAliasGuarded(n *CandidateNode) int {
+	total := 1
+	if n.Alias != nil {
+		owner := n.Parent
+		for owner != nil && owner.Value == "seq" {
+			owner = owner.Parent
+		}
+		if owner != n.Alias {
+			total += FollowsAliasGuarded(n.Alias)
+		}
+	}
+	for _, ch := range n.Content {
+		total += FollowsAliasGuarded(ch)
+	}
+	return total
+}
+
+// OverridesPrefsForRecursion changes a preference for the levels below.
+func OverridesPrefsForRecursion(n *CandidateNode, p walkPreferences) int {
+	if len(n.Content) == 0 {
+		return walk(n, p)
+	}
+	p.DontFollow = true
+	return OverridesPrefsForRecursion(n.Content[0], p)
+}
+
+func recordAnchor(n *CandidateNode, anchors map[string]*CandidateNode) {
+	anchors[n.Value] = n
+}
+
+// FreshAnchorTable receives the table and hands a new one on.
+func FreshAnchorTable(n *CandidateNode, anchors map[string]*CandidateNode) {
+	for _, ch := range n.Content {
+		recordAnchor(ch, map[string]*CandidateNode{})
+	}
+}
+
+// ResultsPrinter keeps the -e flag.
+type ResultsPrinter struct {
+	printedMatches bool
+	w              io.Writer
+}
+
+func (p *ResultsPrinter) PrintedAnything() bool { return p.printedMatches }
+
+func (p *ResultsPrinter) Note(v string) { p.printedMatches = p.printedMatches || v != "null" }
+
+// ReadsFlagForOutput decides what to write from the exit-status flag.
+func (p *ResultsPrinter) ReadsFlagForOutput(v string) error {
+	if p.printedMatches {
+		if _, err := p.w.Write([]byte("---\n")); err != nil {
+			return err
+		}
+	}
+	_, err := p.w.Write([]byte(v))
+	return err
+}
+
+// NarrowsMode sets a computed mode.
+func NarrowsMode(info os.FileInfo, name string) error {
+	return os.Chmod(name, info.Mode()&^0o022)
+}
